@@ -20,10 +20,14 @@ impl FsLocator {
 }
 
 impl PackLocatorTrait for FsLocator {
-    fn locate(&self, _uuid: Uuid, path: &str) -> Result<Option<Reader>> {
+    fn locate(&self, uuid: Uuid, path: &str) -> Result<Option<Reader>> {
         let path = self.base_dir.join(path);
         if path.is_file() {
-            Ok(Some(Reader::from(FileSource::open(path)?)))
+            // The file may be the pack itself or a container pack holding it.
+            // In both cases, the pack we are looking for is identified by its uuid.
+            let reader = Reader::from(FileSource::open(path)?);
+            let container = super::jubako::open_as_container_pack(reader)?;
+            Ok(container.get_pack_reader(&uuid))
         } else {
             Ok(None)
         }
